@@ -54,18 +54,18 @@ class HandlerModel:
 
     # ------------------------------------------------------------------ roles
     def _derive_role(self, h: ClassInfo) -> Tuple[str, str]:
-        is_req = h.is_subclass_of(self.slots.Requester)
-        if is_req:
-            # interaction = the request frame class its methods build
-            kinds = set()
-            for f in self.own_methods(h):
-                for p in self.ctx.paths(f, h, self_val=self.hval(h), inline_depth=6):
-                    for e in p.events:
-                        c = build_class(e, self.slots)
-                        if c is not None and c.name in tables.REQUEST_FRAME_INTERACTION:
-                            kinds.add(tables.REQUEST_FRAME_INTERACTION[c.name])
-            if len(kinds) != 1:
-                raise AnalysisError('cannot derive the interaction of requester %s (builds %s)' % (h.name, kinds))
+        # a requester is a handler whose own methods build a request frame (the marker base class `Requester` is what
+        # the connection-loss loop looks at - C11.c decides that the two agree - so it is not used to derive the role)
+        kinds = set()
+        for f in self.own_methods(h):
+            for p in self.ctx.paths(f, h, self_val=self.hval(h), inline_depth=6):
+                for e in p.events:
+                    c = build_class(e, self.slots)
+                    if c is not None and c.name in tables.REQUEST_FRAME_INTERACTION:
+                        kinds.add(tables.REQUEST_FRAME_INTERACTION[c.name])
+        if len(kinds) > 1:
+            raise AnalysisError('cannot derive the interaction of requester %s (builds %s)' % (h.name, kinds))
+        if kinds:
             return kinds.pop(), 'requester'
         # responder: instantiated in a function whose frame parameter is annotated with a request frame class
         kinds = set()
